@@ -1,7 +1,16 @@
 (* C06 — proofs about the fence model. *)
 From Coq Require Import List NArith Bool Arith Lia.
-From SeataV Require Import Fence.FenceModel Fence.FenceRace.
+From SeataV Require Import Gen.FenceRules Fence.FenceModel Fence.FenceRace.
 Import ListNotations.
+
+(* ---------- the regenerated tables are fully recognised ------------------------------- *)
+Definition tables_recognised : bool :=
+  rules_known gen_prepare && rules_known gen_commit && rules_known gen_rollback
+  && match gen_withfence with WfStandard => true | WfUnknown _ => false end
+  && match gen_cas_old with Some _ => true | None => false end.
+
+Lemma tables_recognised_ok : tables_recognised = true.
+Proof. vm_compute. reflexivity. Qed.
 
 (* ---------- the single delivery: finite case analysis, any fault position ---- *)
 
